@@ -64,12 +64,15 @@
 //!     An entry of the log is the event as the engine received it (trade id, instrument, price, and - hardening
 //!     round 2 - exchange time, exchange, side, amount: the dataset's own values, compared exactly; not the
 //!     receipt time), so an event that reaches the engine re-stamped or otherwise rewritten is not "the event of
-//!     the dataset" (cause `event-content-changed`).
+//!     the dataset" (cause `event-content-changed`). A `Reconnecting` entry about a link that is already
+//!     down need not show up in the `on_disconnect` log if the engine demonstrably processed it (soundness
+//!     round, see `market_log`).
 //!  R2 isolation (differential, no hand-written expectation) "running many backtests concurrently over
 //!     the same shared data and configuration gives each one the same fills, final positions, balances
 //!     and realised PnL that it produces when run alone": member i of a batch == the same strategy run
 //!     alone (direct `backtest()` on its own runtime) under the same dataset and pacing. Timestamps are
-//!     excluded (`HistoricalClock` adds wall-clock deltas). Running the same backtest alone twice must
+//!     excluded (`HistoricalClock` adds wall-clock deltas); exchange-assigned ids are compared up to a
+//!     consistent renaming (soundness round, see `canon_ids`). Running the same backtest alone twice must
 //!     give the same outcome too (otherwise "what it produces when run alone" is not even defined —
 //!     sequential backtests affecting one another through process-global state).
 //!  R3 own summary "the summary it returns is computed from that engine alone": the summary's id /
@@ -651,6 +654,33 @@ pub struct MemberOutcome {
     summary_ids: Vec<String>,
 }
 
+/// Exchange-assigned ids (trade id, order id) are LABELS: nothing in the statement makes them a function of a
+/// backtest's inputs, and an exchange may issue ids that differ from one solo run to the next (random, derived
+/// from the clock, which adds wall-clock deltas) without any backtest affecting another. "The same fills ... that
+/// it produces when run alone" is therefore compared up to a consistent renaming of the ids (first appearance
+/// order: t0, t1, ... / o0, o1, ...): which fills share an order, and how many distinct ids there are, still
+/// counts. Comparisons in which the raw labels differed although everything else was equal are COUNTED (evidence
+/// key `comparisons_where_only_the_id_labels_differed`; 0 on a tree whose ids are deterministic and unshared).
+fn canon_ids(v: &[Fill]) -> Vec<Fill> {
+    let (mut t, mut o): (Vec<&str>, Vec<&str>) = (Vec::new(), Vec::new());
+    v.iter()
+        .map(|f| {
+            let ti = t.iter().position(|x| *x == f.trade_id.as_str()).unwrap_or_else(|| {
+                t.push(f.trade_id.as_str());
+                t.len() - 1
+            });
+            let oi = o.iter().position(|x| *x == f.order_id.as_str()).unwrap_or_else(|| {
+                o.push(f.order_id.as_str());
+                o.len() - 1
+            });
+            Fill { trade_id: format!("t{ti}"), order_id: format!("o{oi}"), ..f.clone() }
+        })
+        .collect()
+}
+
+/// see `canon_ids`
+static ID_LABELS_ONLY_DIFFER: AtomicU64 = AtomicU64::new(0);
+
 impl MemberOutcome {
     /// what is counted as a distinct observed outcome: the record and the summary without identity fields
     fn essence(&self) -> (&Record, Option<(&Vec<(String, Option<String>, Option<String>)>, &Vec<Option<(String, String)>>)>) {
@@ -867,6 +897,50 @@ fn is_subsequence_missing_inner_only(want: &[String], got: &[String], class: imp
     gi == got.len() && inner
 }
 
+
+/// The engine-local market log as R1 judges it. A `Reconnecting` entry is observed through the engine's call of
+/// the strategy's `on_disconnect` hook - but whether the ENGINE runs that hook for a notice about a link that is
+/// already down (a repeated notice, or one before the exchange's first item: links start as `Reconnecting`) is
+/// the engine's business, not the backtest's, and the statement is about what the backtest FEEDS. So: if the log
+/// lacks only such redundant notices AND the engine demonstrably processed them as events (the strategy is
+/// consulted once per processed event: consultations - market items - account events == number of `Reconnecting`
+/// entries of the dataset), they are filled in at their dataset positions. A notice for a link that is up must
+/// be in the log; anything else is returned as observed and judged by `rule_completeness`.
+fn market_log(rec: &Record, want: &[MEv]) -> Vec<MEv> {
+    let got = &rec.market;
+    if got == want {
+        return got.clone();
+    }
+    let items = got.iter().filter(|e| e.instrument != RECONNECT_MARK).count() as u64;
+    let fed_other = rec.calls.saturating_sub(items + rec.account_events);
+    if fed_other != want.iter().filter(|e| e.instrument == RECONNECT_MARK).count() as u64 {
+        return got.clone();
+    }
+    let mut down: HashMap<String, bool> = HashMap::new();
+    let (mut gi, mut filled) = (0usize, Vec::with_capacity(want.len()));
+    for w in want {
+        if w.instrument == RECONNECT_MARK {
+            let was_down = down.insert(w.price.clone(), true).unwrap_or(true);
+            if gi < got.len() && got[gi] == *w {
+                filled.push(got[gi].clone());
+                gi += 1;
+            } else if was_down {
+                filled.push(w.clone());
+            } else {
+                return got.clone();
+            }
+        } else {
+            down.insert(w.stamp.split('|').nth(1).unwrap_or("").to_string(), false);
+            if gi >= got.len() {
+                return got.clone();
+            }
+            filled.push(got[gi].clone());
+            gi += 1;
+        }
+    }
+    if gi == got.len() { filled } else { got.clone() }
+}
+
 /// R1: the engine-local market log equals the dataset.
 fn rule_completeness(want: &[MEv], got: &[MEv], source: &Source, ctxs: &str, out: &mut Vec<Viol>) {
     if want == got {
@@ -963,12 +1037,17 @@ fn rule_isolation(prefix: &str, got: &MemberOutcome, reference: &MemberOutcome, 
         v.iter().map(|f| (f.instrument, f.side.clone(), f.price.clone(), f.quantity.clone(), f.fee.clone())).collect::<Vec<_>>()
     };
     let (g, r) = (&got.record, &reference.record);
-    let found: Option<(&str, String, String)> = if g.fills != r.fills {
-        // exchange-assigned ids are part of a fill, but a difference in ids only gets its own cause
+    // exchange-assigned ids are compared up to a consistent renaming (see `canon_ids`)
+    let (gf, rf) = (canon_ids(&g.fills), canon_ids(&r.fills));
+    if gf == rf && g.fills != r.fills {
+        ID_LABELS_ONLY_DIFFER.fetch_add(1, Ordering::Relaxed);
+    }
+    let found: Option<(&str, String, String)> = if gf != rf {
+        // the id STRUCTURE (which fills share an order / a trade id) is part of a fill; a difference in it only gets its own cause
         let no_hour = |v: &[Fill]| v.iter().map(|f| Fill { hour: 0, ..f.clone() }).collect::<Vec<_>>();
-        let field = if no_hour(&g.fills) == no_hour(&r.fills) {
+        let field = if no_hour(&gf) == no_hour(&rf) {
             "fill-exchange-times"
-        } else if strip(&g.fills) == strip(&r.fills) {
+        } else if strip(&gf) == strip(&rf) {
             "fill-ids"
         } else {
             "fills"
@@ -1017,7 +1096,7 @@ fn check_batch_timing_free(instr: &[usize], source: &Source, members: &[Strat], 
         distinct.add(&o.essence());
         stats.oracle_evals.fetch_add(2, Ordering::Relaxed);
         let c = format!("{ctxs} member={i}");
-        rule_completeness(&want, &o.record.market, source, &c, out);
+        rule_completeness(&want, &market_log(&o.record, &want), source, &c, out);
         rule_own_summary(i, o, &c, out);
     }
 }
@@ -1071,7 +1150,7 @@ fn reference(instr: &[usize], source: &Source, s: Strat, stats: &Stats, distinct
     stats.note(&first);
     distinct.add(&first.essence());
     stats.oracle_evals.fetch_add(3, Ordering::Relaxed);
-    rule_completeness(&expected_log(instr), &first.record.market, source, &ctxs, out);
+    rule_completeness(&expected_log(instr), &market_log(&first.record, &expected_log(instr)), source, &ctxs, out);
     rule_own_summary(0, &first, &ctxs, out);
     rule_isolation("R2-isolation-sequential-runs", &runs[0], &first, &ctxs, out);
     Some(first)
@@ -1095,7 +1174,7 @@ fn check_batch(instr: &[usize], source: &Source, members: &[Strat], refs: &BTree
         distinct.add(&o.essence());
         stats.oracle_evals.fetch_add(3, Ordering::Relaxed);
         let c = format!("{ctxs} member={i}");
-        rule_completeness(&want, &o.record.market, source, &c, out);
+        rule_completeness(&want, &market_log(&o.record, &want), source, &c, out);
         rule_own_summary(i, o, &c, out);
         if let Some(r) = refs.get(&members[i]) {
             rule_isolation("R2-isolation-concurrent", o, r, &c, out);
@@ -1278,7 +1357,7 @@ fn check_mt_smoke(instr: &[usize], source: &Source, members: &[Strat], workers: 
     let mut local = Vec::new();
     for (i, o) in outcomes.iter().enumerate() {
         let c = format!("{ctxs} member={i}");
-        rule_completeness(&want, &o.record.market, source, &c, &mut local);
+        rule_completeness(&want, &market_log(&o.record, &want), source, &c, &mut local);
         rule_own_summary(i, o, &c, &mut local);
     }
     out.extend(local.into_iter().map(|(sig, det)| (sig.replacen("C20/", "C20/mt-smoke/", 1), det)));
@@ -1416,7 +1495,7 @@ fn long_datasets(ctx: &Ctx) -> Value {
             for strat in [Strat::Idle, Strat::Trade { buy: 1, sell: trades }] {
                 let ctxs = format!("alone, {n}-event in-memory dataset, strategy={strat:?}");
                 match execute(&instr, &src, &[strat], Mode::Alone) {
-                    Ok(v) => rule_completeness(&expected_log(&instr), &v[0].record.market, &src, &ctxs, &mut out),
+                    Ok(v) => rule_completeness(&expected_log(&instr), &market_log(&v[0].record, &expected_log(&instr)), &src, &ctxs, &mut out),
                     Err((kind, text)) => out.push((format!("C20/R1-completeness-order/backtest-failed/{kind}"), format!("{ctxs}: {text}"))),
                 }
             }
@@ -1478,7 +1557,7 @@ fn check_hetero(instr: &[usize], delays: &[Vec<u64>], members: &[Strat], stats: 
         stats.note(o);
         distinct.add(&o.essence());
         let c = format!("{ctxs} member={i}");
-        rule_completeness(&want, &o.record.market, &source, &c, out);
+        rule_completeness(&want, &market_log(&o.record, &want), &source, &c, out);
         rule_own_summary(i, o, &c, out);
     }
     // R2. The source hands pacing vector k to the k-th `stream()` call of the batch, and which member makes
@@ -1802,6 +1881,7 @@ pub fn run(ctx: &Ctx) -> Outcome {
             "members_with_closed_round_trip": g(&stats.members_round_trip),
             "members_with_open_final_position": g(&stats.members_open_position),
             "members_with_response_cut_off_by_shutdown": g(&stats.members_fill_cut_by_shutdown),
+            "comparisons_where_only_the_id_labels_differed": ID_LABELS_ONLY_DIFFER.load(Ordering::Relaxed),
             "units_dataset_x_source": units.len(),
             "per_n": per_n,
             "n_max": n_max,
@@ -1835,7 +1915,8 @@ pub fn run(ctx: &Ctx) -> Outcome {
             "N=3 at the largest dataset size (n=3 quick, n=4 thorough) only for datasets starting on instrument 0; all smaller sizes: every dataset x N<=3; at n=4 the N=3 assignments are the non-decreasing strategy triples and their reversals (all ordered triples for n<=3, all ordered pairs for every n)".into(),
             "the first market event is delivered a positive virtual delay after system start, i.e. after the initial account snapshot".into(),
             "the timestamps carried by the market events themselves are dataset values that no clock touches: the exchange time is compared exactly in R1, the receipt time (exchange time + 5 s in every dataset) is not compared; timestamps produced by the backtest's clock are excluded from compared outcomes (HistoricalClock adds wall-clock deltas) except for the whole hour of a fill's exchange time; dataset timestamps are whole hours (main sweep: strictly increasing; dataset-shape layer: also equal and decreasing), so wall-clock jitter cannot move an exchange timestamp into another hour".into(),
-            "a `Reconnecting` entry of the dataset is observed through the engine's call of the strategy's on_disconnect hook; the mock account stream never reconnects in the explored runs, so every such call stems from a market entry".into(),
+            "a `Reconnecting` entry of the dataset is observed through the engine's call of the strategy's on_disconnect hook; the mock account stream never reconnects in the explored runs, so every such call stems from a market entry; an entry about a link that is already down (repeated notice / before the exchange's first item) may be missing from that log if the number of events the engine processed (one strategy consultation each) shows that every Reconnecting entry was fed".into(),
+            "exchange-assigned trade / order ids are compared up to a consistent renaming within a backtest (ids need not be reproducible from one solo run to the next); comparisons where only the raw labels differed are counted in the coverage".into(),
             "stalled sources are modelled by one 6-hour virtual delay; a shutdown that gives up on the stream later than that is not distinguished from one that waits for ever".into(),
         ],
     }
